@@ -134,6 +134,11 @@ type Case struct {
 	// CtxCancel (dial): the dial context is a cancellable one that the caller cancels (defer cancel()) once
 	// DialContext has returned; the connection must live on.
 	CtxCancel bool `json:"ctx_cancel,omitempty"`
+	// Again (dial, end=close): after the connection was closed the same station is dialled again on the same
+	// port and the TNC delivers three data frames, one at a time (the next only after the application has read
+	// the previous one, or after a long idle wait): the second connection is a stream of its own.
+	Again     bool   `json:"again,omitempty"`
+	AgainSeed uint64 `json:"again_seed,omitempty"`
 }
 
 // stats is what a run tells account().
